@@ -396,6 +396,10 @@ pub fn run(tier: Tier) -> i32 {
         ("nested-svg-offset-with-width-only", "<svg><g><svg x=\"50\" y=\"20\" width=\"30\"><rect wh=\"10\"/></svg></g></svg>", Some("45 15 20 20")),
         ("config-in-waiting-group-then-later-config", "<svg><g><rect xy=\"#z|h 5\" wh=\"10\"/><config border=\"1\"/></g><config border=\"3\"/><rect id=\"z\" wh=\"10\"/></svg>", Some("-3 -3 31 16")),
         ("config-in-group-then-later-config-control", "<svg><rect id=\"z\" wh=\"10\"/><g><rect xy=\"#z|h 5\" wh=\"10\"/><config border=\"1\"/></g><config border=\"3\"/></svg>", Some("-3 -3 31 16")),
+        // sixth review round: a shape with a negative size is not rendered, and adds nothing
+        ("negative-size/rect", "<svg><rect wh=\"10\" dw=\"-30\"/><rect xy=\"0\" wh=\"4\"/></svg>", Some("-5 -5 14 14")),
+        ("negative-size/circle", "<svg><circle r=\"5\"/><circle cxy=\"10\" r=\"-5\"/></svg>", Some("-10 -10 20 20")),
+        ("negative-size/only-shape", "<svg><rect wh=\"10\" dw=\"-30\"/></svg>", None),
         ("empty-root-with-size", "<svg width=\"100\" height=\"50\"/>", None),
         ("empty-root-with-size-end-tag", "<svg width=\"100\" height=\"50\"></svg>", None),
         ("empty-root-plain", "<svg/>", None),
